@@ -39,7 +39,7 @@ RULE = ("schemas: stock FIX42UTEST and FIX44 (+ FIX43, FIX42, FIX41, FIX40 in th
         "field type, enumerations of every family, groups nested to depth 4, a group reused by several messages, count fields with a once-used and a reused "
         "definition in both hash orders, plain / nested / "
         "group-holding components; a schema with a required component nested in an optional one; a schema using PATTERN/TENOR; "
-        "random schemas from the rng.  Per schema one tables case and one case per message table entry (trait tree + probes: "
+        "a FIXT-mode pair (f8c -x); random schemas from the rng; attribute values are written in every spelling f8c accepts (msgcat admin/Admin/ADMIN, component required Y/y/yes/true/1, ...).  Per schema one tables case and one case per message table entry (trait tree + probes: "
         "full, minimal, every group once, random subsets, mandatory field removed). non-trivial = tables case, or message case "
         "with >= 3 probes; distinct = distinct case lines")
 
@@ -82,6 +82,7 @@ def schemas(rng, tier):
     out += gen_special(rng)
     for _ in range(12 if tier == "thorough" else 1):
         out.append(("gen", L.gen_random(rng, 1.0), "random"))
+    out.append(("genx", L.gen_fixt(rng), "fixt"))
     if tier == "thorough":
         for _ in range(3):
             out.append(("gen", L.gen_alltypes(rng), "alltypes"))
